@@ -38,9 +38,10 @@ INCLUDE_REMOVE_BEFORE_OTHERS = False
 # also check "in order and ahead of later messages" under interleavings (set False to restrict the oracle to loss / duplication)
 CHECK_ORDER = True
 LEAN_TARGETS = ["Eliot.Conc.Handover", "Eliot.Conc.HandoverFix", "Eliot.Generated.Handover", "Eliot.Proofs.Handover",
-                "Eliot.Proofs.HandoverFix", "Eliot.Proofs.HandoverGen"]
+                "Eliot.Proofs.HandoverFix", "Eliot.Proofs.HandoverOrder", "Eliot.Proofs.HandoverGen"]
 THEOREMS = ["Eliot.Conc.HandoverFix.handover_no_loss", "Eliot.Conc.HandoverFix.handover_no_overtake",
             "Eliot.Conc.HandoverFix.handover_drain_exclusive",
+            "Eliot.Conc.HandoverFix.handover_per_thread_fifo", "Eliot.Conc.HandoverFix.handover_pre_first",
             "Eliot.Conc.Handover.handover_race_witness", "Eliot.Conc.Handover.handover_no_loss_false",
             "Eliot.Conc.Handover.handover_race_witness_empty_list", "Eliot.Conc.Handover.handover_race_witness_prebuffered",
             "Eliot.Conc.Handover.handover_overtake_witness"]
